@@ -115,7 +115,7 @@ def analyze_cell(cell: Cell, budget_s: float, path_timeout: float = 90.0) -> dic
                 if vals is None:
                     return {**out, "status": R.INCONCLUSIVE, "detail": f"unparsable counterexample: {m[:300]}"}
                 named = dict(zip(cell.names, [vals[x] for x in harness.ARG_NAMES[:len(cell.names)]]))
-                cexs.append({"label": k + ": " + m[:200], "inputs": named})
+                cexs.append({"label": k + ": " + m[:200], "inputs": named, "model_labels": [str(x)[:200] for x in cell.fail_labels[:3]]})
         return {**out, "status": R.REFUTED, "counterexamples": cexs, "detail": res["messages"][0][1][:300]}
     if "PRE_UNSAT" in kinds:
         return {**out, "status": R.HARNESS_ERROR, "detail": "precondition unsatisfiable / no path completed: " + str(res["messages"])[:300]}
